@@ -142,7 +142,7 @@ def gen_history(rng, maxlen):
                 st['stdin'] = reply + '\n'
                 declined = reply not in ('y', 'Y')
             fresh = None
-            if mode >= 0.4 and rng.random() < 0.3:
+            if not declined and rng.random() < 0.3:
                 # while trash-empty runs (right after its k-th removal) another trash-put completes in the home trash: a whole, brand-new
                 # entry.  Whatever trash-empty had listed before, that entry stays whole and is listed afterwards
                 fname = 'fresh%d' % k
@@ -287,6 +287,20 @@ def run(run, thorough):
     byd = {id(s): p for s, p in dirs}
     for scn, res in outd:
         judge(run, scn, byd[id(scn)], res, section='history-link-to-dir')
+    # directed: trash-rm whose payload removals are all refused (a write-protected directory inside a trashed directory, an immutable
+    # file): nothing is purged - every entry keeps its .trashinfo and is still listed, whatever the command's exit status
+    refd = []
+    for kind, pat in (('d', 'proj'), ('f', 'proj'), ('d', '*'), ('d', '/home/u/proj')):
+        t1 = datetime.datetime(2024, 1, 1, 0, 0, 5)
+        tree = scen.canary() + [['d', '/home/u', 0o755]] + ([['d', '/home/u/proj', 0o755], ['f', '/home/u/proj/a', 'a']] if kind == 'd' else [['f', '/home/u/proj', 'p']])
+        steps = [{'cmd': 'list', 'argv': []}, {'cmd': 'put', 'argv': ['--', '/home/u/proj'], 'now': [2024, 1, 1, 0, 0, 5, 0]}, {'cmd': 'list', 'argv': []},
+                 {'cmd': 'rm', 'argv': [pat], 'plan': {'faults': {'remove': {'errno': 13, 'path': '/files/'}, 'rmtree': {'errno': 13, 'path': '/files/'}}}},
+                 {'cmd': 'list', 'argv': []}]
+        plan = [('init', []), ('put', '/home/u/proj', t1), ('list',), ('rm-refused', pat), ('list',)]
+        refd.append(({'tree': tree, 'mounts': [], 'cwd': '/', 'uid': 1000, 'env': {'HOME': '/home/u', 'TRASH_VOLUMES': '/'}, 'steps': steps}, plan))
+    byr = {id(s): p for s, p in refd}
+    for scn, res in engine.run_all(run, 'history-rm-refused', [s for s, p in refd], strict=False):
+        judge(run, scn, byr[id(scn)], res, section='history-rm-refused')
     concurrent_puts(run, thorough)
     if items:
         run.sample({'level': 'history', 'commands': [[s['cmd'], s['argv']] for s in scns[0]['steps'] if s['cmd'] != 'list'][:8], 'mounts': scns[0]['mounts']})
